@@ -1226,6 +1226,57 @@ fn run_c13(out: &mut Out, rng: &mut Rng, work: &str) -> BTreeMap<String, u64> {
 			}
 		}
 	}
+	// ---- an NRD kernel that is the newest kernel of the chain (last in its block, alone on the
+	// last leaf of an odd-sized kernel MMR) when the node restarts, and its duplicate right after
+	// the restart (subject s4 reopens after every block): on the heaviest chain built so far
+	let mut nrd_last_pair: Option<(usize, usize)> = None;
+	{
+		let tip = *g.valid.iter().max_by_key(|i| (g.kit.blks[**i].work, **i)).unwrap();
+		let h = g.kit.blks[tip].height + 1;
+		let plains: Vec<usize> = g.spendable(tip, h).into_iter().filter(|o| !g.kit.outs[*o].coinbase).collect();
+		g.stat(&format!("c13:nrd-newest-kernel-setup:tip-height={}:plain-outputs={}", h - 1, plains.len()));
+		if h >= 10 && plains.len() >= 2 {
+			let is_nrd = |k: &grin_core::core::TxKernel| matches!(k.features, grin_core::core::KernelFeatures::NoRecentDuplicate { .. });
+			if let Ok(nrd_tx) = g.kit.build_tx(&spend(plains[0], &g, KSpec::Nrd(3, 2, 5))) {
+				let mut txs = vec![nrd_tx];
+				let mut chosen = None;
+				for attempt in 0..60 {
+					let b = match g.kit.assemble(tip, 1, &txs, 0) {
+						Ok(b) => b,
+						Err(_) => break,
+					};
+					let odd = grin_core::core::pmmr::n_leaves(b.header.kernel_mmr_size) % 2 == 1;
+					if !odd && attempt == 0 {
+						// one more (plain) kernel flips the parity
+						if let Ok(extra) = g.kit.build_tx(&spend(plains[1], &g, KSpec::Plain(3))) {
+							txs.push(extra);
+						}
+						continue;
+					}
+					if odd && b.kernels().last().map(|k| is_nrd(k)).unwrap_or(false) {
+						chosen = Some(b);
+						break;
+					}
+				}
+				if let Some(b) = chosen {
+					if g.kit.builder().process_block(b.clone(), grin_chain::Options::SKIP_POW).is_ok() {
+						let st = g.state_after(tip, &b);
+						let id = g.kit.record(b, tip, vec![], true);
+						g.states.insert(id, st);
+						g.valid.push(id);
+						g.stat("c13:accepted-by-builder:nrd:newest-kernel-at-restart");
+						// the duplicate one block later: distance 1 of 2 -> must be refused
+						if let Some(o) = pick_plain(&g, id, h + 1) {
+							if let Some(d) = g.add_scripted(id, 1, &[spend(o, &g, KSpec::Nrd(3, 2, 5))], "nrd:duplicate-right-after-restart:distance-1-of-2") {
+								nrd_last_pair = Some((id, d));
+							}
+						}
+					}
+				}
+			}
+		}
+	}
+	let _ = nrd_last_pair;
 	// ---- a short but heavy fork off height 1, announced header-first while the body chain grows:
 	// the header head sits on another fork than every block delivered afterwards
 	let heavy_short = match g.add_scripted(trunk[1], 500, &[], "fork:heavy-short") {
@@ -1292,7 +1343,7 @@ fn run_c13(out: &mut Out, rng: &mut Rng, work: &str) -> BTreeMap<String, u64> {
 	let all: Vec<usize> = (1..g.kit.blks.len()).collect();
 	let kit = &g.kit;
 	let all: Vec<usize> = all.into_iter().filter(|i| Some(*i) != heavy_short && !fat.contains(i)).collect();
-	for si in 0..4 {
+	for si in 0..5 {
 		let name = format!("s{}", si);
 		let order: Vec<usize> = if si == 0 || si >= 2 {
 			all.clone()
@@ -1316,7 +1367,7 @@ fn run_c13(out: &mut Out, rng: &mut Rng, work: &str) -> BTreeMap<String, u64> {
 			}
 			res
 		};
-		let subj = Subject::new(&format!("{}/c13_{}", work, name), &kit.genesis);
+		let mut subj = Subject::new(&format!("{}/c13_{}", work, name), &kit.genesis);
 		out.raw(&format!("chain new {}", name));
 		let mut announced = false;
 		for i in order {
@@ -1341,6 +1392,15 @@ fn run_c13(out: &mut Out, rng: &mut Rng, work: &str) -> BTreeMap<String, u64> {
 			let r = subj.deliver_block(&kit.blks[i].block);
 			out.line(&format!("chain deliver {} b{}", name, i), &r);
 			out.line(&format!("chain obs {}", name), &subj.obs(kit));
+			if si == 4 && r == "ok:head" {
+				// s4: the node restarts after every block that became head
+				let rr = match subj.reopen() {
+					Ok(_) => "ok".to_string(),
+					Err(e) => format!("err:{}", e),
+				};
+				out.line(&format!("chain reopen {}", name), &rr);
+				out.line(&format!("chain obs {}", name), &subj.obs(kit));
+			}
 			if r == "ok:head" {
 				let before = (subj.obs(kit), subj.roots());
 				for (_, tx) in &probes {
